@@ -797,7 +797,8 @@ def get_block_reads_disk(ct: Container, rep, rule="read-through-handle"):
         rep.fail(rule, MOD(ct), fq, d.stmt, f"`{ent}` does not always come from the entry table")
     c = d.call
     fmt = c.args[1] if len(c.args) > 1 else None
-    cls_def = ff.defs.get(norm(c.func.value), [])
+    recv = c.func.value
+    cls_def = [(recv, d.stmt)] if isinstance(recv, ast.Call) else ff.defs.get(norm(recv), [])
     cls_ok = bool(cls_def) and all(isinstance(v, ast.Call) and v.args and norm(v.args[0]) == f"{ent}.type" for v, st in cls_def)
     if fmt is not None and norm(fmt) == f"{ent}.format" and cls_ok:
         rep.ok(rule, f"{fq}: decoder class and format are taken from the same entry that supplies the offset", nontrivial=True)
